@@ -791,4 +791,26 @@ theorem answerOK_exc (P : Prog) (m : Method) (hm : MethodOK P m) (ho : m.oneway 
     rw [← hl] at hi ⊢
     exact single_ok P rd.fields i v hao hI hi (fun g hg => hv g (by rw [htd]; exact hg))
 
+
+/-! ### streaming functions -/
+
+theorem kept_not_streaming (fs : List Fn) (f : Fn) (hf : f ∈ fs) (hs : f.isStreaming = true)
+    (hd : (fs.map (·.m.name)).Nodup) : f.m.name ∉ (keptMethods fs).map (·.name) := by
+  induction fs with
+  | nil => cases hf
+  | cons g gs ih =>
+    simp only [List.map_cons, List.nodup_cons] at hd
+    intro hin
+    simp only [keptMethods, List.map_map, List.mem_map, List.mem_filter, Function.comp] at hin
+    obtain ⟨k, ⟨hk, hks⟩, hkn⟩ := hin
+    rcases List.mem_cons.mp hf with rfl | hfg
+    · rcases List.mem_cons.mp hk with rfl | hkg
+      · simp [hs] at hks
+      · exact hd.1 (List.mem_map.mpr ⟨k, hkg, hkn⟩)
+    · rcases List.mem_cons.mp hk with rfl | hkg
+      · exact hd.1 (List.mem_map.mpr ⟨f, hfg, hkn.symm⟩)
+      · exact ih hfg hd.2 (by
+          simp only [keptMethods, List.map_map, List.mem_map, List.mem_filter, Function.comp]
+          exact ⟨k, ⟨hkg, hks⟩, hkn⟩)
+
 end Gen.Rpc
